@@ -61,12 +61,16 @@ def lines_of(arrivals, fmt):
     return out
 
 
+EVER = {}          # id -> every Parent link any arrival filed under that id ever carried (reset per case)
+
+
 def reference(arrivals, strategy, force, fmt, stored=None, counters=None, dupmap=None):
     """the outcome the property prescribes.  returns ('error'|'abort'|'ok', stored) with
     stored: id -> {cols, attrs: k -> set, links: set(parent ids), exempt: col -> set}"""
     stored = stored if stored is not None else {}
     counters = counters if counters is not None else {}
     dupmap = dupmap if dupmap is not None else {}
+
 
     def new(a):
         attrs = {k: set(v) for k, v in a["attrs"].items()}
@@ -90,6 +94,7 @@ def reference(arrivals, strategy, force, fmt, stored=None, counters=None, dupmap
         k = a["key"]
         if k not in stored:
             stored[k] = new(a)
+            EVER.setdefault(k, set()).update(stored[k]["links"])
             continue
         if strategy == "error":
             return "error", stored
@@ -97,12 +102,14 @@ def reference(arrivals, strategy, force, fmt, stored=None, counters=None, dupmap
             continue
         if strategy == "replace":
             stored[k] = new(a)
+            EVER.setdefault(k, set()).update(stored[k]["links"])
             continue
         if strategy == "create_unique":
             nk = incr(k)
             if nk in stored:
                 return "abort", stored
             stored[nk] = new(a)
+            EVER.setdefault(nk, set()).update(stored[nk]["links"])
             continue
         # merge
         target = None
@@ -114,6 +121,7 @@ def reference(arrivals, strategy, force, fmt, stored=None, counters=None, dupmap
             if nk in stored:
                 return "abort", stored
             stored[nk] = new(a)
+            EVER.setdefault(nk, set()).update(stored[nk]["links"])
             dupmap.setdefault(k, []).append(nk)
             continue
         t = stored[target]
@@ -121,6 +129,7 @@ def reference(arrivals, strategy, force, fmt, stored=None, counters=None, dupmap
         for kk, vs in n["attrs"].items():
             t["attrs"].setdefault(kk, set()).update(vs)
         t["links"] |= n["links"]
+        EVER.setdefault(target, set()).update(n["links"])
         for c in force:
             t["exempt"][c] |= n["exempt"][c]
     return "ok", stored
@@ -192,6 +201,7 @@ def run(ctx):
         force = r.sample(EXEMPTABLE, r.choice([0, 0, 1, 2])) if strategy == "merge" else []
         arrivals = rand_arrivals(r, r.randrange(2, 8), r.choice([1, 1, 2]), fmt)
         use_update = r.random() < 0.3
+        EVER.clear()
         idspec = dbside.IdSpec() if fmt == "gff3" else dbside.IdSpec("L", [("a", "eid")], form="str")
         cfg = dbside.Cfg(idspec=idspec, strategy=strategy, force=force, disG=True, disT=True)
         lines = lines_of(arrivals, fmt)
@@ -231,12 +241,10 @@ def run(ctx):
         for what, detail, cls in probs:
             known = None
             if cls == "links" and strategy == "replace":
-                # D12b: the kept key carries, besides the last arrival's links, only links of replaced arrivals
+                # D12b: the kept key carries, besides the last arrival's links, only links of arrivals that were
+                # filed under it earlier and have been replaced
                 key = what.split("'")[1]
-                every = set()
-                for a in arrivals:
-                    if a["key"] == key:
-                        every |= set(a["parents"] if fmt == "gff3" else a["parents"][:1])
+                every = EVER.get(key, set())
                 if set(detail["expected"]) <= set(detail["stored"]) <= every:
                     known = "D12b"
             if known:
